@@ -180,6 +180,9 @@ def canaries(params, inp, out, lg):
 
 
 CANARY_TASKS = 1
+# the unpatched package stores the regret / strategy tables as float32 (RMValue): the float run differs from the exact terms by
+# float32 rounding (~1e-7 relative per operation), so the term-by-term cross-check uses a float32-sized tolerance
+XCHECK_TOL = 5e-5
 
 
 def signature(params, v):
